@@ -27,6 +27,7 @@ import (
 
 	"github.com/bio-routing/bio-rd/protocols/bgp/packet"
 
+	"verifharness/internal/gofuzz"
 	"verifharness/internal/vf"
 	"verifharness/internal/wire"
 	"verifharness/internal/wiregen"
@@ -458,13 +459,54 @@ func fatalSite(stderr string) string {
 	return first
 }
 
+// fuzzBudget is the execution count of the coverage-guided stage (thorough tier only).
+const fuzzBudget = 2000000
+
+// fuzzStage runs the native Go fuzz target FuzzBGPDecode (verifharness/fuzz, seeded with the wiregen corpus) as a child
+// `go test -fuzz` for a fixed number of executions. The engine only searches: an input it saves as failing is run
+// through this check's own monitored decode in a child, exactly as a replay is, and reported with the same clause and
+// features, so the framework reconfirms it from the replay file without go test.
+func fuzzStage(r *vf.Run, dir string, report func(v childViol, in []byte, kind, from string)) {
+	res := gofuzz.Run(gofuzz.Opts{Name: "FuzzBGPDecode", Execs: fuzzBudget, Workers: 8, Watchdog: 20 * time.Minute})
+	gofuzz.Record(r, res, "FuzzBGPDecode", fuzzBudget)
+	if !res.Found || res.Crasher == nil {
+		return
+	}
+	var opt byte
+	var in []byte
+	ok := len(res.Crasher) == 2
+	if ok {
+		var ok1, ok2 bool
+		opt, ok1 = res.Crasher[0].(byte)
+		in, ok2 = res.Crasher[1].([]byte)
+		ok = ok1 && ok2 && len(in) <= 0xffff
+	}
+	if !ok {
+		r.Inconclusive(fmt.Sprintf("native fuzzing: crasher %s does not have the shape (byte, []byte)", res.CrasherFile))
+		return
+	}
+	ci := int(opt & 15)
+	r.Set("fuzz_failing_input", map[string]any{"combo": ci, "input": hex.EncodeToString(in), "engine_report": tail([]byte(res.FailureText), 600)})
+	br := runBatch(dir, 98, [][]byte{in}, ci, 60*time.Second)
+	for _, s := range br.inconcl {
+		r.Inconclusive(s)
+	}
+	for _, v := range br.viols {
+		report(v, in, "go-fuzz", "fuzz corpus")
+	}
+	if len(br.viols) == 0 {
+		r.Inconclusive(fmt.Sprintf("native fuzzing: the engine saved a failing input that this check's oracle accepts (%s, input %s): %s", comboName(ci), hex.EncodeToString(in), tail([]byte(res.FailureText), 400)))
+	}
+}
+
 func main() {
 	if os.Getenv("C16_BATCH") != "" {
 		childMain()
 		return
 	}
 	vf.Main("C16", "exploration", func(r *vf.Run) {
-		r.Rule("corpus of valid OPEN/UPDATE/NOTIFICATION/KEEPALIVE messages built by the independent codec (every capability; classic, MP IPv4/IPv6 and labeled-unicast UPDATEs under all add-path/4-octet-AS encodings; every attribute; End-of-RIB; near-maximum attribute sets), each mutated by one or two typed mutations (header length, truncation, bit flips, any length/count field set to boundary values, attribute flag flips, NLRI prefix length boundaries, type/AFI/SAFI substitution, splice of two messages, random tail, insertion, padding to 4096); every input is decoded by packet.Decode under all 16 option combinations in a child process. distinct_nontrivial = distinct inputs that differ from every corpus message and whose header passes (marker, 19<=length<=4096, type 1..4), i.e. the body decoder ran")
+		rule := "corpus of valid OPEN/UPDATE/NOTIFICATION/KEEPALIVE messages built by the independent codec (every capability; classic, MP IPv4/IPv6 and labeled-unicast UPDATEs under all add-path/4-octet-AS encodings; every attribute; End-of-RIB; near-maximum attribute sets), each mutated by one or two typed mutations (header length, truncation, bit flips, any length/count field set to boundary values, attribute flag flips, NLRI prefix length boundaries, type/AFI/SAFI substitution, splice of two messages, random tail, insertion, padding to 4096); every input is decoded by packet.Decode under all 16 option combinations in a child process. distinct_nontrivial = distinct inputs that differ from every corpus message and whose header passes (marker, 19<=length<=4096, type 1..4), i.e. the body decoder ran"
+		r.Rule(rule)
 		r.Assume("inputs are at most 4096 bytes (what recvMsg can hand to Decode)", fmt.Sprintf("allocation bound per call: %d + %d x len(input) bytes of heap allocation (cheap runtime/metrics meter, re-measured with ReadMemStats when above half the bound)", allocBase, allocPerByte),
 			"time bound: a call must return before the batch watchdog; a hang is a violation only if the single case hangs again alone")
 		dir, err := os.MkdirTemp("", "verif-c16-")
@@ -493,6 +535,13 @@ func main() {
 			return
 		}
 
+		if !r.Quick() {
+			r.Rule(rule + fmt.Sprintf("; thorough tier only: afterwards the coverage-guided native Go fuzzing engine runs FuzzBGPDecode (input = option-combination byte + message of at most 4096 bytes, seeded with the corpus under the options each message was encoded for, with and without extended next hop) for %d executions on 8 workers; an input it reports as failing is judged by the same monitored decode in a child", fuzzBudget))
+			if os.Getenv("C16_ONLY_FUZZ") != "" { // development aid: the fuzzing stage alone
+				fuzzStage(r, dir, report)
+				return
+			}
+		}
 		n := r.N(150000, 5000000)
 		workers := 8
 		per := (n + workers - 1) / workers
@@ -590,6 +639,9 @@ func main() {
 		}
 		r.Set("inputs_by_mutation", kinds)
 		r.Set("inputs_by_message_type", types)
+		if !r.Quick() {
+			fuzzStage(r, dir, report)
+		}
 		r.Require("decodes_accepted", int64(n/20))
 		r.Require("accepted_update", int64(n/50))
 		r.Require("accepted_open", int64(n/500))
